@@ -236,6 +236,12 @@ mod verif_driver_redeemers {
             check(&Case { inputs: one.clone(), mints: vec![(p, Some(200))], burns: vec![(p, Some(200))], withdrawals: vec![], ..Default::default() }, "mint-index", &mut n);
             check(&Case { inputs: one.clone(), mints: vec![(p, Some(200)), (q, Some(201))], burns: vec![(q, Some(201))], withdrawals: vec![], ..Default::default() }, "mint-index", &mut n);
         }
+        // the redeemer written on the BURN block of a policy that is also minted (without a redeemer) guards the policy
+        for (p, q) in [(0xaau8, 0xbbu8), (0xbb, 0xaa)] {
+            check(&Case { inputs: one.clone(), mints: vec![(p, None)], burns: vec![(p, Some(201))], ..Default::default() }, "burn-redeemer-of-a-minted-policy", &mut n);
+            check(&Case { inputs: one.clone(), mints: vec![(q, None), (p, None)], burns: vec![(p, Some(201))], ..Default::default() }, "burn-redeemer-of-a-minted-policy", &mut n);
+            check(&Case { inputs: one.clone(), mints: vec![(q, Some(200)), (p, None)], burns: vec![(p, Some(201))], ..Default::default() }, "burn-redeemer-of-a-minted-policy", &mut n);
+        }
         // a policy whose mint and burn cancel out is not in the body: the policies after it move up
         for (p, q) in [(0xaau8, 0xbbu8), (0xbb, 0xaa)] {
             check(&Case { inputs: one.clone(), mints: vec![(p, None), (q, Some(200))], burns: vec![(p, None)], burn_amount: Some(3), ..Default::default() }, "mint-index-after-cancelled-policy", &mut n);
@@ -268,6 +274,23 @@ mod verif_driver_redeemers {
             std::panic::set_hook(prev);
             if out.is_err() {
                 witness("c14_cardano/compile_spend_redeemers#reachable-panic", "compile_spend_redeemers", format!("{} class=input-without-utxos", describe(&c)), "panic".into(), "Ok or Err");
+            }
+        }
+        // ---- C14: a redeemer on a mint block whose policy cancels out against a burn (fully, or next to other policies) names
+        // a policy that is not in the body: an error (or no redeemer), never a panic ----
+        for (mints, burns) in [
+            (vec![(0xaau8, Some(200i128))], vec![(0xaau8, None)]), (vec![(0xaa, None)], vec![(0xaa, Some(201))]), (vec![(0xaa, Some(200))], vec![(0xaa, Some(201))]),
+            (vec![(0xaa, Some(200)), (0xbb, Some(202))], vec![(0xaa, None)]), (vec![(0xbb, None), (0xaa, Some(200))], vec![(0xaa, None)]),
+        ] {
+            let c = Case { inputs: vec![(vec![(0x11, 0)], None)], mints, burns, burn_amount: Some(3), ..Default::default() };
+            let tx = build(&c);
+            n += 1;
+            let prev = std::panic::take_hook();
+            std::panic::set_hook(Box::new(|_| {}));
+            let out = std::panic::catch_unwind(std::panic::AssertUnwindSafe(|| produced(&tx)));
+            std::panic::set_hook(prev);
+            if out.is_err() {
+                witness("c14_cardano/mint_redeemer_index#reachable-panic", "mint_redeemer_index", format!("{} (mint and burn of 3 each) class=redeemer-of-a-cancelled-policy", describe(&c)), "panic".into(), "Ok or Err");
             }
         }
         println!("VERIF-CASES fn=compile_redeemers n={n}");
